@@ -39,6 +39,10 @@ def tasks(tier):
         for first in range(3):
             out.append({"kind": "first-none", "engine": engine, "rtc": True, "allow": False, "s0": 0, "first": first, "values": "first_none",
                         "calls": 1, "budget": 1, "listener": False, "drop": ["before_transition"], "send_events": ["go", "hop"]})
+    # an event's own trigger used as a before/on callback (given by the event's name)
+    for rtc in (False, True):
+        for shape in ("before", "on", "before+on", "before+on+conv"):
+            out.append({"kind": "event-callback", "rtc": rtc, "shape": shape})
     if not quick:
         for mb in range(5):
             for s0 in range(3):
@@ -53,18 +57,103 @@ BUDGET = {
 BOUNDS = {
     "quick": "T-actions template (C02); before and on groups populated {none, event-specific convention, all styles} independently; exit/enter/after "
     "present (generic) and returning junk; providers {machine} / {machine, model, listener}; every pre-state x event {go, hop, tick, jump}; "
-    "a variant with a listener that has only generic callbacks attached after construction; one invocation (any of the first 4 value-returning ones, or none) returns one of None, [], [x], (), {}, ''; all other values symbolic ints in [-3,3].",
+    "a variant with a listener that has only generic callbacks attached after construction; one invocation (any of the first 4 value-returning ones, or none) returns one of None, [], [x], (), {}, ''; all other values symbolic ints in [-3,3]; a hand-written machine whose before / on callbacks are given as the names of other events (rtc False and True; with and without a convention on_<event> next to them; the nested event returning None or a symbolic int).",
     "thorough": "modes {none, generic, specific, inline, all}, provider mixes incl. listener-only and two listeners, also rtc=False.",
 }
 OUTSIDE = "more than one awkward value per event; values of other types (floats, objects); nested events (C03)"
-OBLIGATIONS = ["first-event-none-with-queued-result", "late-generic-listener", "result-none", "result-single", "result-list", "special-value-returned", "internal", "multi-event-second-id", "no-transition"]
+OBLIGATIONS = ["event-trigger-as-callback", "first-event-none-with-queued-result", "late-generic-listener", "result-none", "result-single", "result-list", "special-value-returned", "internal", "multi-event-second-id", "no-transition"]
 ASSUMPTIONS = [
     "result order inside the before group and inside the on group is free (the acceptor uses the observed order), before values precede on values",
     "values are compared by identity of kind and value: [] is not None, () is not [], 0 is not False",
 ]
 
 
+def run_event_callback(ctx, params):
+    """`finish = idle.to(done, before="tick", on="tock")` where tick and tock are events of the same machine: under
+    rtc=False the nested event runs inside the callback and what its trigger returns is that callback's value."""
+    from statemachine import State, StateMachine
+
+    from vfw.ctx import Mismatch
+
+    shape = params["shape"]
+    kw = {}
+    if "before" in shape:
+        kw["before"] = "tick"
+    if "on" in shape.split("+"):
+        kw["on"] = "tock"
+    with ctx.notracing():
+        attrs = {}
+        idle, done = State(initial=True), State()
+        attrs.update(idle=idle, done=done, tick=idle.to.itself(), tock=idle.to.itself(), finish=idle.to(done, **kw), reset=done.to(idle))
+        seen = []
+
+        def on_tick(self):
+            seen.append("tick")
+            return self.v_tick
+
+        def on_tock(self):
+            seen.append("tock")
+            return self.v_tock
+
+        def after_transition(self):
+            return "junk"
+
+        attrs.update(on_tick=on_tick, on_tock=on_tock, after_transition=after_transition)
+        if "conv" in shape:
+            def on_finish(self):
+                seen.append("finish")
+                return self.v_fin
+
+            attrs["on_finish"] = on_finish
+        cls = type(StateMachine)("C14E", (StateMachine,), attrs)
+    rtc = params["rtc"]
+    sm = cls(rtc=rtc, allow_event_without_transition=True)
+    none_tick = ctx.choose(2, "tick-returns-none") == 1
+    sm.v_tick = None if none_tick else ctx.sym_int("v.tick")
+    sm.v_tock = ctx.sym_int("v.tock")
+    sm.v_fin = ctx.sym_int("v.fin")
+    # a direct trigger first: its own result
+    r0 = sm.send("tick")
+    if not (r0 is sm.v_tick or (r0 is not None and sm.v_tick is not None and r0 == sm.v_tick)):
+        raise Mismatch(f"wrong-result:event-callback:rtc={rtc}", f"tick returned {r0!r}, on_tick returned {sm.v_tick!r}")
+    del seen[:]
+    res = sm.send("finish")
+    parts = []
+    if "before" in kw:
+        parts.append(sm.v_tick if not rtc else None)
+    if "on" in kw:
+        parts.append(sm.v_tock if not rtc else None)
+    if "conv" in shape:
+        parts.append(sm.v_fin)
+    want = None if not parts else parts[0] if len(parts) == 1 else parts
+
+    def same(a, b):
+        if a is None or b is None:
+            return a is b
+        if isinstance(a, list) or isinstance(b, list):
+            return isinstance(a, list) and isinstance(b, list) and len(a) == len(b) and all(same(x, y) for x, y in zip(a, b))
+        return type(a) is not bool and a == b
+
+    if not same(res, want):
+        raise Mismatch(f"wrong-result:event-callback:rtc={rtc}", f"finish ({kw}{', on_finish' if 'conv' in shape else ''}) returned {res!r}, expected {want!r} "
+                       f"(the value a callback that is an event trigger returns is the nested event's result under rtc=False, None when it is only queued)")
+    exp_seen = [n for n in ("tick", "tock") if (n == "tick" and "before" in kw) or (n == "tock" and "on" in kw)]
+    if not rtc:
+        exp_seen = exp_seen + (["finish"] if "conv" in shape else [])
+        if seen != exp_seen:
+            raise Mismatch(f"wrong-sequence:event-callback:rtc={rtc}", f"callbacks ran {seen}, expected {exp_seen}")
+    else:
+        # queued: they are processed after finish, in `done`, where they are tolerated and ignored
+        if seen != (["finish"] if "conv" in shape else []):
+            raise Mismatch(f"wrong-sequence:event-callback:rtc={rtc}", f"callbacks ran {seen}")
+    if sm.current_state.id != "done":
+        raise Mismatch(f"wrong-state:event-callback:rtc={rtc}", f"in {sm.current_state.id}")
+    ctx.cover("event-trigger-as-callback")
+
+
 def run(ctx, params):
+    if params.get("kind") == "event-callback":
+        return run_event_callback(ctx, params)
     if params.get("kind") == "first-none":
         from harness import c03
 
